@@ -8,7 +8,7 @@ from typing import Dict, List, Set
 from ..core import astutil as A
 from ..core.index import AnalysisError, ClassInfo, FuncInfo
 from ..selftest import M
-from .common import is_early_exit_guard, may_conds, T, attr_stores, calls_named, every_origin, facts, need, where
+from .common import ext_name, is_early_exit_guard, may_conds, T, attr_stores, calls_named, every_origin, facts, need, where
 
 FC = "ufo2ft.featureCompiler.FeatureCompiler"
 
@@ -96,6 +96,8 @@ def run(prog, chk):
     ]
     chk.decided += ["addLookupReferences registers the lookups under every language it is handed for the script (the only one passed over is 'dflt' where the default language system is written "
                     "anyway; an empty list means 'dflt'): no declared language system of a script is left without the generated kerning (R20.8)"]
+    chk.decided += ["kern and dist partition the scripts that have kerning: the kern block takes <scripts> - D and the dist block D & <scripts> with one and the same set D on both sides, in both kern "
+                    "writers - no script with generated kerning falls between the two features (R20.9)"]
     chk.not_decided += ["which scripts a given font ends up with in the compiled ScriptList"]
     writers = default_writers(prog)
     gpos = []
@@ -141,6 +143,7 @@ def run(prog, chk):
     from .c17 import check_generated_blocks_top_level
     chk.guard(check_generated_blocks_top_level, prog, chk, "R20.7")
     chk.guard(r208, prog, chk)
+    chk.guard(r209, prog, chk)
 
 
 def feature_tags(prog, w: ClassInfo) -> Set[str]:
@@ -367,7 +370,42 @@ def r208(prog, chk):
     chk.minimum("R20.8", 2)
 
 
+# ----------------------------------------------------------------------------- R20.9
+def r209(prog, chk):
+    ix = prog.ix
+    for f in (ix.get_method("ufo2ft.featureWriters.kernFeatureWriter.KernFeatureWriter", "_registerLookups", own=True), ix.get_func("ufo2ft.featureWriters.kernFeatureWriter2:register_lookups")):
+        minus, inter = [], []
+        for st in A.stmts_of(f.node):
+            if not (isinstance(st, ast.Assign) and len(st.targets) == 1 and isinstance(st.targets[0], ast.Name)):
+                continue
+            v = st.value
+            if isinstance(v, ast.BinOp) and isinstance(v.op, ast.Sub) and isinstance(v.right, (ast.Name, ast.Attribute)):
+                d = ext_name(prog, f, v.right) or T(v.right)
+                if "SCRIPTS" in d.upper() and not d.endswith("DFLT_SCRIPTS"):
+                    minus.append((st, d, T(v.left)))
+            elif isinstance(v, ast.Call) and isinstance(v.func, ast.Attribute) and v.func.attr == "intersection" and len(v.args) == 1:
+                d = ext_name(prog, f, v.func.value) or T(v.func.value)
+                inter.append((st, d, T(v.args[0])))
+            elif isinstance(v, ast.BinOp) and isinstance(v.op, ast.BitAnd):
+                for a, b in ((v.left, v.right), (v.right, v.left)):
+                    d = ext_name(prog, f, a) or T(a)
+                    if "SCRIPTS" in d.upper():
+                        inter.append((st, d, T(b)))
+                        break
+        need(len(minus) == 1 and len(inter) == 1, f"cannot interpret {f.short}: kern / dist script selection ({len(minus)}, {len(inter)})")
+        (s1, d1, a1), (s2, d2, a2) = minus[0], inter[0]
+        same_target = T(s1.targets[0]) == T(s2.targets[0])
+        norm = lambda t: t.replace(".keys()", "")
+        ok = d1 == d2 and norm(a1) == norm(a2) and same_target
+        chk.ob("R20.9", f"{f.short}|kern takes <scripts> - D, dist takes D & <scripts>, same D and same scripts", ok, where(f, s2), detail=f"kern: {a1} - {d1.rsplit('.', 1)[-1]}; dist: {d2.rsplit('.', 1)[-1]} & {a2}",
+               message=f"{f.short}: the kern block leaves out the scripts of {d1.rsplit('.', 1)[-1]} but the dist block takes those of {d2.rsplit('.', 1)[-1]} (over {a1} / {a2}): "
+                       f"a script that is in one set and not in the other gets its kerning lookups registered in neither feature")
+    chk.minimum("R20.9", 2)
+
+
 MUTANTS = [
+    M("dist block selects scripts with a narrower set than the kern block excludes (seeded C20k)", "ufo2ft/featureWriters/kernFeatureWriter.py", "KernFeatureWriter._registerLookups",
+      "DIST_ENABLED_SCRIPTS.intersection(lookups.keys())", "(DIST_ENABLED_SCRIPTS - {'Mymr'}).intersection(lookups.keys())", rule="R20.9"),
     M("declared languages replaced by dflt when the default is excluded (mutation scan 4, k=20)", "ufo2ft/featureWriters/ast.py", "addLookupReferences",
       "languages or ('dflt',)", "languages and ('dflt',)", rule="R20.8"),
     M("only the first declared language is registered", "ufo2ft/featureWriters/ast.py", "addLookupReferences",
